@@ -50,27 +50,223 @@ class Vec(Stub):
         return [a * k for a in self.v]
 
 
-def check_kernel_wrappers(chk, r4):
-    """fix_full_model_x / get_full_model_x keep the 7-vector in kernel order, swap the three coefficient pairs together, apply the
-    single-slope sign convention and clamp against the *fit range* (T_min, T_max) — shared by C11/R11.4 and C01/R01.9 (the stored
-    coefficients are turned into the evaluated curve by exactly these wrappers)."""
-    fm = chk.repo.func(FM, "full_model")
-    fx = chk.repo.func(FM, "fix_full_model_x")
-    t = unparse(fx.node)
-    r4.require("hdd_bp, hdd_beta, hdd_k, cdd_bp, cdd_beta, cdd_k, intercept = x" in t.replace("(", "").replace(")", ""), f"{fx.key}|unpack-order", fx.where(), "fix_full_model_x must unpack the 7-vector in kernel order")
-    r4.require("return [hdd_bp, hdd_beta, hdd_k, cdd_bp, cdd_beta, cdd_k, intercept]" in t, f"{fx.key}|return-order", fx.where(), "fix_full_model_x must return the 7-vector in kernel order")
-    for f in (fx, fm):
-        sw = [s for s in ast.walk(f.node) if isinstance(s, ast.If) and unparse(s.test) == "cdd_bp < hdd_bp"]
-        ok = len(sw) == 1 and sorted(unparse(x) for x in sw[0].body) == sorted(["hdd_bp, cdd_bp = (cdd_bp, hdd_bp)", "hdd_beta, cdd_beta = (cdd_beta, hdd_beta)", "hdd_k, cdd_k = (cdd_k, hdd_k)"])
-        r4.require(ok, f"{f.key}|swap-all-three-pairs", f.where(), f"{f.name}: when cdd_bp < hdd_bp the balance points, slopes and smoothing parameters must be swapped together")
-    gx = chk.repo.func(FM, "get_full_model_x")
-    r4.require("x = [hdd_bp, hdd_beta, hdd_k, cdd_bp, cdd_beta, cdd_k, intercept]" in unparse(gx.node) and "return fix_full_model_x(x, T_min, T_max)" in unparse(gx.node), f"{gx.key}|assembles-kernel-order", gx.where(),
-               "get_full_model_x must assemble the 7-vector in kernel order and pass it through fix_full_model_x")
-    # c_hdd sign convention: negative slope => heating with |slope|
-    t = unparse(gx.node)
-    r4.require(t.count("if c_hdd_beta < 0:") == 2 and t.count("hdd_beta = -c_hdd_beta") == 2 and t.count("cdd_beta = c_hdd_beta") == 2, f"{gx.key}|c_hdd-sign-convention", gx.where(),
-               "single-slope models: a negative slope is a heating slope of magnitude -slope, otherwise a cooling slope")
+class SymNum(Stub):
+    def __init__(self, val, expr):
+        self.val, self.expr = val, expr
 
+    @staticmethod
+    def lift(x):
+        if isinstance(x, SymNum):
+            return x
+        if isinstance(x, bool) or not isinstance(x, (int, float)):
+            raise Unsupported(f"kernel arithmetic with {type(x).__name__}")
+        return SymNum(x, sp.nsimplify(x))
+
+    def _b(self, o, f):
+        o = SymNum.lift(o)
+        try:
+            v = f(self.val, o.val)
+        except (ZeroDivisionError, OverflowError):
+            v = float("nan")
+        return SymNum(v, f(self.expr, o.expr))
+
+    def __add__(self, o): return self._b(o, lambda a, b: a + b)
+    def __radd__(self, o): return SymNum.lift(o)._b(self, lambda a, b: a + b)
+    def __sub__(self, o): return self._b(o, lambda a, b: a - b)
+    def __rsub__(self, o): return SymNum.lift(o)._b(self, lambda a, b: a - b)
+    def __mul__(self, o): return self._b(o, lambda a, b: a * b)
+    def __rmul__(self, o): return SymNum.lift(o)._b(self, lambda a, b: a * b)
+    def __truediv__(self, o): return self._b(o, lambda a, b: a / b)
+    def __rtruediv__(self, o): return SymNum.lift(o)._b(self, lambda a, b: a / b)
+    def __neg__(self): return SymNum(-self.val, -self.expr)
+    def __pos__(self): return self
+    def __abs__(self): return SymNum(abs(self.val), sp.Abs(self.expr))
+    def __lt__(self, o): return self.val < SymNum.lift(o).val
+    def __le__(self, o): return self.val <= SymNum.lift(o).val
+    def __gt__(self, o): return self.val > SymNum.lift(o).val
+    def __ge__(self, o): return self.val >= SymNum.lift(o).val
+    def __eq__(self, o): return self.val == SymNum.lift(o).val
+    def __ne__(self, o): return self.val != SymNum.lift(o).val
+    __hash__ = None
+    def __bool__(self): return self.val != 0
+
+class SVec(Stub):
+    def __init__(self, v): self.v = list(v)
+    def __len__(self): return len(self.v)
+    def __iter__(self): return iter(self.v)
+    def __getitem__(self, i): return self.v[i]
+    def __setitem__(self, i, x): self.v[i] = x
+    def __mul__(self, k): return SVec([SymNum.lift(a) * k for a in self.v])
+    __rmul__ = __mul__
+    def __add__(self, k): return SVec([SymNum.lift(a) + k for a in self.v])
+    __radd__ = __add__
+    def astype(self, *a, **k): return self
+
+class NPs(Stub):
+    inf = math.inf
+    float64 = None
+    @staticmethod
+    def ones_like(T): return SVec([SymNum(1, sp.Integer(1))] * len(T))
+    @staticmethod
+    def zeros_like(T): return SVec([SymNum(0, sp.Integer(0))] * len(T))
+    @staticmethod
+    def empty_like(T): return SVec([None] * len(T))
+    @staticmethod
+    def full_like(T, x): return SVec([SymNum.lift(x)] * len(T))
+    @staticmethod
+    def exp(x):
+        x = SymNum.lift(x)
+        try:
+            v = math.exp(max(-700.0, min(700.0, float(x.val))))
+        except (OverflowError, ValueError):
+            v = float("nan")
+        return SymNum(v, sp.exp(x.expr))
+    @staticmethod
+    def clip(x, lo, hi): return x  # the clamp only guards exp() against overflow: identity on the closed form
+    @staticmethod
+    def abs(x): return abs(SymNum.lift(x))
+    absolute = abs
+    @staticmethod
+    def array(x): return SVec(x) if not isinstance(x, SVec) else x
+
+
+
+def check_kernel_wrappers(chk, r4):
+    """get_full_model_x / fix_full_model_x turn stored coefficients into the 7-vector the kernel evaluates — shared by C11/R11.4,
+    C01/R01.9 and C12/R12.6.  Both functions are interpreted from their AST on dual numbers (representative value + symbolic
+    expression) for every model key, every ordering of the balance point(s) against the limits, every sign of the slopes and
+    every zero pattern of the smoothing parameters, and compared with the property-level reference written below:
+    kernel order; single-slope models: negative slope = heating slope of that magnitude; an unsmoothed single balance point is
+    clamped into the segment limits; reversed balance points swap *all three* pairs; a slope whose balance point sits at the end
+    of the **fit range** (T_min, T_max) is dropped; a zero slope has zero smoothing."""
+    from engine.absint import ModuleEnv
+    gx = chk.repo.func(FM, "get_full_model_x")
+    fx = chk.repo.func(FM, "fix_full_model_x")
+    if gx.params != ["model_key", "x", "T_min", "T_max", "T_min_seg", "T_max_seg"]:
+        raise AnalysisError(f"get_full_model_x signature changed: {gx.params}")
+    Z = SymNum(0.0, sp.Integer(0))
+
+    def ref_fix(v, lo, hi):
+        hbp, hb, hk, cbp, cb, ck, c0 = v
+        if cbp.val < hbp.val:
+            hbp, cbp, hb, cb, hk, ck = cbp, hbp, cb, hb, ck, hk
+        if hbp.val != cbp.val:
+            if cbp.val >= hi.val:
+                cb = Z
+            elif hbp.val <= lo.val:
+                hb = Z
+        if hb.val == 0:
+            hk = Z
+        if cb.val == 0:
+            ck = Z
+        return [hbp, hb, hk, cbp, cb, ck, c0]
+
+    def ref_get(key, x, A, B, a, b):
+        if key == "hdd_tidd_cdd_smooth":
+            v = list(x)
+        elif key == "hdd_tidd_cdd":
+            v = [x[0], x[1], Z, x[2], x[3], Z, x[4]]
+        elif key in ("c_hdd_tidd_smooth", "c_hdd_tidd"):
+            bp, slope = x[0], x[1]
+            k = x[2] if key == "c_hdd_tidd_smooth" else Z
+            c0 = x[-1]
+            if key == "c_hdd_tidd":
+                bp = a if bp.val < a.val else (b if bp.val > b.val else bp)
+            v = [bp, -slope, k, bp, Z, Z, c0] if slope.val < 0 else [bp, Z, Z, bp, slope, k, c0]
+        else:
+            v = [Z, Z, Z, Z, Z, Z, x[0]]
+        return ref_fix(v, A, B)
+
+    def run(fi, *args):
+        it = Interp(step_limit=20000)
+        env = ModuleEnv(chk.repo, fi.module, it, {"np": NPs(), "numpy": NPs()})
+        return list(Function(fi.node, env, it)(*args))
+
+    def same_vec(got, want):
+        if len(got) != 7:
+            return False
+        for g, w in zip(got, want):
+            g, w = SymNum.lift(g), SymNum.lift(w)
+            if g.val != w.val or sp.simplify(g.expr - w.expr) != 0:
+                return False
+        return True
+    S = lambda n, v: SymNum(v, sp.Symbol(n, real=True))
+    bad: Dict[str, List[str]] = {}
+    n = 0
+    try:
+        # ---- two balance points (7- and 5-vectors) against the fit range
+        for order in weak_orders(["hdd_bp", "cdd_bp", "T_min", "T_max"]):
+            if order["T_min"] > order["T_max"]:
+                continue
+            val = {k_: 20.0 * (r + 1) for k_, r in order.items()}
+            A, B = S("T_min", val["T_min"]), S("T_max", val["T_max"])
+            # segment limits strictly inside the fit range and *beyond the neighbouring rank*: a balance point one rank inside the fit
+            # range lies outside the segment limits, so dropping a slope against the wrong pair of limits shows up
+            a, b = S("T_min_seg", val["T_min"] + 25.0), S("T_max_seg", val["T_max"] - 25.0)
+            for hs, cs, hkz, ckz in itertools.product((-2.0, 0.0, 2.0), (-3.0, 0.0, 3.0), (0.0, 5.0), (0.0, 7.0)):
+                hb = Z if hs == 0 else S("hdd_beta", hs)
+                cb = Z if cs == 0 else S("cdd_beta", cs)
+                hk = Z if hkz == 0 else S("hdd_k", hkz)
+                ck = Z if ckz == 0 else S("cdd_k", ckz)
+                x7 = [S("hdd_bp", val["hdd_bp"]), hb, hk, S("cdd_bp", val["cdd_bp"]), cb, ck, S("intercept", 100.0)]
+                for key, x in (("hdd_tidd_cdd_smooth", x7), ("hdd_tidd_cdd", [x7[0], x7[1], x7[3], x7[4], x7[6]])):
+                    if key == "hdd_tidd_cdd" and (hkz or ckz):
+                        continue
+                    n += 1
+                    got = run(gx, key, SVec(x), A, B, a, b)
+                    want = ref_get(key, x, A, B, a, b)
+                    if not same_vec(got, want):
+                        swapped = val["cdd_bp"] < val["hdd_bp"]
+                        why = "swap-all-three-pairs" if swapped else "end-of-fit-range-or-zero-smoothing"
+                        bad.setdefault(f"{gx.key}|{why}", []).append(f"{key} order={order} slopes=({hs},{cs}) k=({hkz},{ckz}): got {[str(SymNum.lift(g).expr) for g in got]} want {[str(w.expr) for w in want]}")
+                n += 1
+                got = run(fx, SVec(x7), A, B)
+                if not same_vec(got, ref_fix(x7, A, B)):
+                    bad.setdefault(f"{fx.key}|swap-all-three-pairs" if val["cdd_bp"] < val["hdd_bp"] else f"{fx.key}|end-of-range-or-zero-smoothing", []).append(
+                        f"order={order} slopes=({hs},{cs}) k=({hkz},{ckz}): got {[str(SymNum.lift(g).expr) for g in got]}")
+        # ---- one balance point against the segment limits
+        for order in weak_orders(["c_hdd_bp", "T_min_seg", "T_max_seg"]):
+            if order["T_min_seg"] > order["T_max_seg"]:
+                continue
+            val = {k_: 10.0 * (r + 2) for k_, r in order.items()}
+            A, B = S("T_min", 5.0), S("T_max", 95.0)
+            a, b = S("T_min_seg", val["T_min_seg"]), S("T_max_seg", val["T_max_seg"])
+            for sl, kz in itertools.product((-2.0, 0.0, 2.0), (0.0, 5.0)):
+                slope = Z if sl == 0 else S("c_hdd_beta", sl)
+                k = Z if kz == 0 else S("c_hdd_k", kz)
+                for key, x in (("c_hdd_tidd_smooth", [S("c_hdd_bp", val["c_hdd_bp"]), slope, k, S("intercept", 100.0)]), ("c_hdd_tidd", [S("c_hdd_bp", val["c_hdd_bp"]), slope, S("intercept", 100.0)])):
+                    if key == "c_hdd_tidd" and kz:
+                        continue
+                    n += 1
+                    got = run(gx, key, SVec(x), A, B, a, b)
+                    want = ref_get(key, x, A, B, a, b)
+                    if not same_vec(got, want):
+                        bad.setdefault(f"{gx.key}|c_hdd-sign-convention-and-clamp", []).append(f"{key} order={order} slope={sl} k={kz}: got {[str(SymNum.lift(g).expr) for g in got]} want {[str(w.expr) for w in want]}")
+        n += 1
+        got = run(gx, "tidd", SVec([S("intercept", 100.0)]), S("T_min", 5.0), S("T_max", 95.0), S("T_min_seg", 10.0), S("T_max_seg", 90.0))
+        if not same_vec(got, ref_get("tidd", [S("intercept", 100.0)], None, None, None, None) if False else [Z, Z, Z, Z, Z, Z, S("intercept", 100.0)]):
+            bad.setdefault(f"{gx.key}|tidd", []).append(f"got {[str(SymNum.lift(g).expr) for g in got]}")
+    except Unsupported as e:
+        raise AnalysisError(f"kernel wrappers use an operation outside the modelled subset: {e}")
+    except (KeyError, IndexError, TypeError, ValueError) as e:
+        r4.require(False, f"{gx.key}|defined", gx.where(), f"the wrappers fail on an abstract state ({type(e).__name__}: {e})")
+        return
+    if n < 1500:
+        raise AnalysisError(f"kernel wrappers: only {n} abstract states interpreted")
+    texts = {"swap-all-three-pairs": "when cdd_bp < hdd_bp the balance points, slopes and smoothing parameters must be swapped together",
+             "end-of-fit-range-or-zero-smoothing": "a slope whose balance point lies at the end of the *fit range* (T_min, T_max) is dropped, and a zero slope has zero smoothing; the 7-vector stays in kernel order",
+             "end-of-range-or-zero-smoothing": "a slope whose balance point lies at the end of the given range is dropped, and a zero slope has zero smoothing",
+             "c_hdd-sign-convention-and-clamp": "single-slope models: a negative slope is a heating slope of magnitude -slope, otherwise a cooling slope; an unsmoothed balance point is clamped into [T_min_seg, T_max_seg]",
+             "tidd": "a temperature-independent model has all slopes, smoothing parameters and balance points zero"}
+    for key, rows in sorted(bad.items()):
+        r4.require(False, key, (gx if key.startswith(gx.key) else fx).where(), f"{key.split(':')[-1].split('|')[0]}: {texts[key.split('|')[1]]}; {len(rows)} abstract state(s) deviate, e.g. {rows[0][:300]}",
+                   sample={"states": rows[:4]})
+    for k_ in ("swap-all-three-pairs", "end-of-fit-range-or-zero-smoothing", "c_hdd-sign-convention-and-clamp", "tidd"):
+        r4.inst(f"{gx.key}|{k_}")
+    r4.inst(f"{fx.key}|swap-all-three-pairs")
+    r4.inst(f"{fx.key}|end-of-range-or-zero-smoothing")
+    r4.inst(f"wrappers|abstract-states={n}")
+    # the scoring kernel reorders in the same way (its own swap is covered by R11.1's exhaustive regime table)
 
 
 def weak_orders(symbols: List[str]):
@@ -109,138 +305,120 @@ def run(chk):
     if params[:7] != ["hdd_bp", "hdd_beta", "hdd_k", "cdd_bp", "cdd_beta", "cdd_k", "intercept"]:
         r4.require(False, f"{fm.key}|parameter-order", fm.where(), f"full_model parameter order changed: {params[:7]}")
         return
-    loop = [s for s in fm.node.body if isinstance(s, ast.For)]
-    if len(loop) != 1 or len(loop[0].body) < 2 or not isinstance(loop[0].body[0], ast.If) or not isinstance(loop[0].body[1], ast.If):
-        raise AnalysisError("full_model: loop with [regime selection, evaluation] not found")
-    loop = loop[0]
-    pre = fm.node.body[:fm.node.body.index(loop)]
-    select, evaluate = loop.body[0], loop.body[1]
-    ti_name = loop.target.elts[1].id if isinstance(loop.target, ast.Tuple) else "Ti"
+    # The whole kernel is interpreted from its AST on *dual* numbers: a representative value (decides every comparison of the
+    # abstract state) and a symbolic expression over the parameter names (what is computed).  For every abstract state the
+    # expression returned for the one temperature T_i is compared with the closed form of the property's regime table.
+    from engine.absint import ModuleEnv
+
+    SY = {n: sp.Symbol(n, real=True) for n in ("T_i", "hdd_bp", "cdd_bp", "T_min", "T_max", "hdd_beta", "cdd_beta", "hdd_k", "cdd_k", "intercept")}
+
+    def closed_form(bp, beta, k):
+        lin = beta * (SY["T_i"] - bp) + SY["intercept"]
+        if k == 0:
+            return lin
+        return sp.Abs(beta * k) * (sp.exp((SY["T_i"] - bp) / k) - 1) + lin
+
+    _eq_cache: Dict[Tuple[str, str], bool] = {}
+
+    def same(a, b) -> bool:
+        key = (str(a), str(b))
+        if key not in _eq_cache:
+            d = sp.simplify(a - b)
+            _eq_cache[key] = d == 0
+        return _eq_cache[key]
 
     symbols = ["Ti", "hdd_bp", "cdd_bp", "T_min", "T_max"]
     n_states = 0
     findings: Dict[str, List[Any]] = {}
+    forms_seen = set()
     for order in weak_orders(symbols):
         if order["T_min"] > order["T_max"]:
             continue
-        val = {s: 10.0 * (r + 1) for s, r in order.items()}
+        val = {s_: 10.0 * (r + 1) for s_, r in order.items()}
         for zb in itertools.product([False, True], repeat=4):
-            hb = 0.0 if zb[0] else HB
-            cb = 0.0 if zb[1] else CB
-            hk = 0.0 if zb[2] else HK
-            ck = 0.0 if zb[3] else CK
+            hb = SymNum(0.0, sp.Integer(0)) if zb[0] else SymNum(HB, SY["hdd_beta"])
+            cb = SymNum(0.0, sp.Integer(0)) if zb[1] else SymNum(CB, SY["cdd_beta"])
+            hk = SymNum(0.0, sp.Integer(0)) if zb[2] else SymNum(HK, SY["hdd_k"])
+            ck = SymNum(0.0, sp.Integer(0)) if zb[3] else SymNum(CK, SY["cdd_k"])
             n_states += 1
-            it = Interp(step_limit=5000)
-            env = Env()
-            env.set("np", NP())
-            for k, v in (("hdd_bp", val["hdd_bp"]), ("hdd_beta", hb), ("hdd_k", hk), ("cdd_bp", val["cdd_bp"]), ("cdd_beta", cb), ("cdd_k", ck), ("intercept", 100.0),
-                         ("T_fit_bnds", [val["T_min"], val["T_max"]]), ("T", [val["Ti"]])):
-                env.set(k, v)
-            got: Tuple[Any, ...]
+            it = Interp(step_limit=20000)
+            env = ModuleEnv(chk.repo, fm.module, it, {"np": NPs(), "numpy": NPs(), "LN_MIN_POS_SYSTEM_VALUE": -700.0, "LN_MAX_POS_SYSTEM_VALUE": 700.0})
+            args = [SymNum(val["hdd_bp"], SY["hdd_bp"]), hb, hk, SymNum(val["cdd_bp"], SY["cdd_bp"]), cb, ck, SymNum(100.0, SY["intercept"]),
+                    SVec([SymNum(val["T_min"], SY["T_min"]), SymNum(val["T_max"], SY["T_max"])]), SVec([SymNum(val["Ti"], SY["T_i"])])]
             try:
-                try:
-                    for s in pre:
-                        it.exec_stmt(s, env)
-                    env.set(ti_name, val["Ti"])
-                    env.set("n", 0)
-                    it.exec_stmt(select, env)
-                    beta = env.get("beta")
-                    if beta == 0:
-                        got = ("flat",)
-                    else:
-                        got = (env.get("T_bp"), beta, env.get("k"))
-                except _Return:
-                    got = ("flat",)
+                res = Function(fm.node, env, it)(*args)
+                out = list(res)[0] if not isinstance(res, SymNum) else res
+                got = SymNum.lift(out).expr if out is not None else None
             except Unsupported as e:
                 r1.require(False, f"{fm.key}|interpretable", fm.where(), f"cannot establish the regime table: {e}")
                 return
-            except KeyError as e:
-                r1.require(False, f"{fm.key}|defined:{e}", fm.where(select), f"regime selection leaves {e} undefined for ordering {order} zero-flags {zb}")
+            except (KeyError, IndexError, TypeError) as e:
+                r1.require(False, f"{fm.key}|defined", fm.where(), f"the kernel fails ({type(e).__name__}: {e}) for ordering {order} zero-flags {zb}")
                 continue
-            # ---- the property's regime table
-            h = (val["hdd_bp"], hb, hk)
-            c = (val["cdd_bp"], cb, ck)
+            if got is None:
+                r1.require(False, f"{fm.key}|defined", fm.where(), f"the kernel leaves the output undefined for ordering {order} zero-flags {zb}")
+                continue
+            # ---- the property's regime table (written independently of the kernel)
+            h = (val["hdd_bp"], hb, hk, SY["hdd_bp"])
+            c = (val["cdd_bp"], cb, ck, SY["cdd_bp"])
             if c[0] < h[0]:
                 h, c = c, h
             Ti = val["Ti"]
-            if hb == 0 and cb == 0:
-                want = ("flat",)
+            heat = closed_form(h[3], -h[1].expr, h[2].expr) if h[1].val != 0 else SY["intercept"]
+            cool = closed_form(c[3], c[1].expr, -c[2].expr) if c[1].val != 0 else SY["intercept"]
+            if hb.val == 0 and cb.val == 0:
+                want, regime = SY["intercept"], "flat"
             elif Ti < h[0]:
-                want = ("flat",) if h[1] == 0 else (h[0], -h[1], h[2])
+                want, regime = heat, "heating"
             elif Ti > c[0]:
-                want = ("flat",) if c[1] == 0 else (c[0], c[1], -c[2])
+                want, regime = cool, "cooling"
             else:
-                want = ("flat",)
-            key = None
-            if got != want:
+                want, regime = SY["intercept"], "flat"
+            forms_seen.add(str(got))
+            if not same(got, want):
                 degenerate = h[0] == c[0]
-                if degenerate and ((c[0] >= val["T_max"] and got == ((h[0], -h[1], h[2]) if h[1] else ("flat",))) or (h[0] <= val["T_min"] and got == ((c[0], c[1], -c[2]) if c[1] else ("flat",)))):
+                if degenerate and ((c[0] >= val["T_max"] and same(got, heat)) or (h[0] <= val["T_min"] and same(got, cool))):
                     kind = "degenerate-line-through-balance-point"
-                else:
+                elif any(same(got, alt) for alt in (heat, cool, SY["intercept"])):
                     kind = "regime"
-                findings.setdefault(kind, []).append({"order": {k: v for k, v in sorted(order.items(), key=lambda kv: kv[1])}, "zero": zb, "selected": got, "table": want})
-            r1.inst(f"state|{sorted(order.items())}|{zb}", {"ordering": " <= ".join(k for k, _ in sorted(order.items(), key=lambda kv: kv[1])), "zero_flags(hb,cb,hk,ck)": zb, "regime": got})
+                else:
+                    kind = "closed-form"
+                findings.setdefault(kind, []).append({"order": {k_: v_ for k_, v_ in sorted(order.items(), key=lambda kv: kv[1])}, "zero": zb, "computed": str(got), "table": str(want), "regime": regime})
+            r1.inst(f"state|{sorted(order.items())}|{zb}", {"ordering": " <= ".join(k_ for k_, _ in sorted(order.items(), key=lambda kv: kv[1])), "zero_flags(hb,cb,hk,ck)": zb, "regime": regime, "computed": str(got)[:80]})
     for kind, rows in findings.items():
         if kind == "degenerate-line-through-balance-point":
-            r1.violate(f"{fm.key}|degenerate-balance-points-at-the-fit-range-edge", fm.where(select),
+            r1.violate(f"{fm.key}|degenerate-balance-points-at-the-fit-range-edge", fm.where(),
                        f"when hdd_bp == cdd_bp lies at/after T_max (resp. at/before T_min) the kernel applies the heating (resp. cooling) line to *every* temperature, also beyond the balance point: "
                        f"the curve keeps falling as it gets hotter above the balance point (negative 'cooling load'); {len(rows)} abstract states, e.g. {rows[0]}", {"states": rows[:6]})
+        elif kind == "regime":
+            r1.violate(f"{fm.key}|regime-table", fm.where(), f"the kernel's regime choice deviates from the property's table in {len(rows)} abstract states, e.g. {rows[0]}", {"states": rows[:8]})
         else:
-            r1.violate(f"{fm.key}|regime-table", fm.where(select), f"the kernel's regime choice deviates from the property's table in {len(rows)} abstract states, e.g. {rows[0]}", {"states": rows[:8]})
+            r2.violate(f"{fm.key}|closed-form", fm.where(), f"the value the kernel computes is none of the property's closed forms (intercept / beta*(T - T_bp) + intercept / smoothed) in {len(rows)} abstract states, e.g. {rows[0]}",
+                       {"states": rows[:8]})
+    # ------------------------------------------------------------------ R11.2 closed forms: continuity at the balance point
+    Tbp, beta_s, k_s = sp.Symbol("T_bp", real=True), sp.Symbol("beta", real=True), sp.Symbol("k", real=True, nonzero=True)
+    for nm, f_ in (("linear", beta_s * (SY["T_i"] - Tbp) + SY["intercept"]), ("smoothed", sp.Abs(beta_s * k_s) * (sp.exp((SY["T_i"] - Tbp) / k_s) - 1) + beta_s * (SY["T_i"] - Tbp) + SY["intercept"])):
+        r2.require(sp.simplify(f_.subs(SY["T_i"], Tbp) - SY["intercept"]) == 0, f"{fm.key}|continuity-at-balance-point:{nm}", fm.where(), f"the {nm} form must equal the intercept at T = T_bp")
+    r2.inst(f"{fm.key}|closed-forms-compared-in-every-state")
+    r2.inst(f"{fm.key}|distinct-computed-forms={len(forms_seen)}")
+    if len(forms_seen) < 5:
+        raise AnalysisError(f"full_model: only {len(forms_seen)} distinct computed forms over the abstract domain (expected flat / linear / smoothed for heating and cooling)")
 
-    # ------------------------------------------------------------------ R11.2 closed forms
-    branches = []
-    node = evaluate
-    while isinstance(node, ast.If):
-        branches.append((unparse(node.test), node.body))
-        node = node.orelse[0] if len(node.orelse) == 1 and isinstance(node.orelse[0], ast.If) else (node.orelse or None)
-        if isinstance(node, list):
-            branches.append(("else", node))
-            break
-    tests = [b[0] for b in branches]
-    r2.require(tests[:2] == ["beta == 0", "k == 0"] and len(branches) == 3, f"{fm.key}|evaluation-branches", fm.where(evaluate), f"evaluation must branch on beta == 0, then k == 0, else smoothed; found {tests}")
-    Ti, Tbp, beta, k, c0 = sp.Symbol("Ti", real=True), sp.Symbol("T_bp", real=True), sp.Symbol("beta", real=True), sp.Symbol("k", real=True, nonzero=True), sp.Symbol("intercept", real=True)
-    if len(branches) == 3:
-        def form(body):
-            c = Converter(call_hook=lambda call, cv: cv.conv(call.args[0]) if unparse(call.func) == "np.clip" else (sp.exp(cv.conv(call.args[0])) if unparse(call.func) == "np.exp" else (sp.Abs(cv.conv(call.args[0])) if unparse(call.func) == "abs" else None)))
-            val = None
-            c.env.update({"Ti": Ti, "T_bp": Tbp, "beta": beta, "k": k, "intercept": c0})
-            for s in body:
-                if isinstance(s, ast.Assign) and isinstance(s.targets[0], ast.Name):
-                    c.env[s.targets[0].id] = c.conv(s.value)
-                elif isinstance(s, ast.Assign) and isinstance(s.targets[0], ast.Subscript):
-                    val = c.conv(s.value)
-            return val
-        try:
-            def norm(e):
-                return e.subs({sym("Ti"): Ti, sym("T_bp"): Tbp, sym("beta"): beta, sym("k"): k, sym("intercept"): c0})
-            f0, f1, f2 = (norm(form(b[1])) for b in branches)
-            r2.require(sp.simplify(f0 - c0) == 0, f"{fm.key}|flat-form", fm.where(evaluate), f"flat branch must be `intercept`; found {f0}")
-            r2.require(sp.simplify(f1 - (beta * (Ti - Tbp) + c0)) == 0, f"{fm.key}|linear-form", fm.where(evaluate), f"unsmoothed branch must be beta*(Ti - T_bp) + intercept; found {f1}")
-            want2 = sp.Abs(beta * k) * (sp.exp((Ti - Tbp) / k) - 1) + beta * (Ti - Tbp) + c0
-            r2.require(sp.simplify(f2 - want2) == 0, f"{fm.key}|smoothed-form", fm.where(evaluate), f"smoothed branch must be |beta*k|*(exp((Ti-T_bp)/k)-1) + beta*(Ti-T_bp) + intercept; found {f2}")
-            r2.require(sp.simplify(f1.subs(Ti, Tbp) - c0) == 0 and sp.simplify(f2.subs(Ti, Tbp) - c0) == 0, f"{fm.key}|continuity-at-balance-point", fm.where(evaluate),
-                       "both sloped forms must equal the intercept at Ti = T_bp (continuity with the flat segment)", sample={"linear_at_bp": str(f1.subs(Ti, Tbp)), "smoothed_at_bp": str(sp.simplify(f2.subs(Ti, Tbp)))})
-        except (ExUnsupported, Exception) as e:
-            r2.require(False, f"{fm.key}|closed-forms", fm.where(evaluate), f"cannot establish the closed forms: {e}")
-
-    # ------------------------------------------------------------------ R11.3 decomposition
+    # ------------------------------------------------------------------ R11.3 decomposition (interpreted: rules/evaluators.py)
+    from rules.evaluators import KEYS, evaluator_outcomes, judge as judge_eval
     dm = chk.repo.cls(*DAILY_MODEL)
-    for f in (method(chk, dm, "_predict_submodel"), chk.repo.func("opendsm.eemeter.models.daily.optimize_results", "OptimizedResult.eval")):
-        t = unparse(f.node)
-        ok_x = "model = full_model(*x, T_fit_bnds," in t
-        r3.require(ok_x, f"{f.key}|kernel-gets-x", f.where(), f"{f.qualname}: the kernel must be called with the vector x (full_model(*x, T_fit_bnds, T))")
-        r3.require("hdd_bp, cdd_bp, intercept = (x[0], x[3], x[6])" in t, f"{f.key}|bps-from-x", f.where(), f"{f.qualname}: hdd_bp, cdd_bp, intercept must be x[0], x[3], x[6] of the vector passed to the kernel")
-        r3.require("load_only = model - intercept" in t and "hdd_load = np.zeros_like(model)" in t and "cdd_load = np.zeros_like(model)" in t, f"{f.key}|load_only", f.where(), f"{f.qualname}: loads must start at zero and load_only = model - intercept")
-        r3.require("hdd_idx = np.argwhere(T <= hdd_bp).flatten()" in t and "cdd_idx = np.argwhere(T >= cdd_bp).flatten()" in t, f"{f.key}|masks", f.where(), f"{f.qualname}: heating mask T <= hdd_bp, cooling mask T >= cdd_bp")
-        r3.require("hdd_load[hdd_idx] = load_only[hdd_idx]" in t and "cdd_load[cdd_idx] = load_only[cdd_idx]" in t, f"{f.key}|loads-are-slices-of-load_only", f.where(), f"{f.qualname}: both loads must be slices of the same load_only array")
-        # the assignment of x after smoothing precedes the reads of x[0], x[3], x[6]
-        lines = {unparse(s)[:40]: s.lineno for s in f.node.body if isinstance(s, (ast.Assign, ast.If))}
-        smooth_if = [s for s in f.node.body if isinstance(s, ast.If) and "hdd_tidd_cdd_smooth" in unparse(s.test)]
-        bps = [s for s in f.node.body if isinstance(s, ast.Assign) and unparse(s.value) == "(x[0], x[3], x[6])"]
-        kern = [s for s in f.node.body if isinstance(s, ast.Assign) and isinstance(s.value, ast.Call) and unparse(s.value.func) == "full_model"]
-        r3.require(len(smooth_if) == 1 and len(bps) == 1 and len(kern) == 1 and smooth_if[0].lineno < bps[0].lineno < kern[0].lineno, f"{f.key}|order", f.where(),
-                   f"{f.qualname}: smoothing must rewrite x before the balance points are read and the kernel is called")
+    for f, kind in ((method(chk, dm, "_predict_submodel"), "stored"), (chk.repo.func("opendsm.eemeter.models.daily.optimize_results", "OptimizedResult.eval"), "fitted")):
+        outs = evaluator_outcomes(chk, f, kind)
+        seen = set()
+        for mk, o in outs.items():
+            for ob, msg in judge_eval(o, mk):
+                key = f"{f.key}|{ob}"
+                if (key, msg[:60]) in seen:
+                    continue
+                seen.add((key, msg[:60]))
+                r3.require(False, key, f.where(), f"{f.qualname} (model_key={mk}): {msg}", sample={"function": f.qualname, "model_key": mk})
+        for ob in ("kernel-gets-x", "loads", "order", "limits", "f_unc", "shape"):
+            r3.inst(f"{f.key}|{ob}")
 
     # ------------------------------------------------------------------ R11.4
     check_kernel_wrappers(chk, r4)
